@@ -279,7 +279,7 @@ def crash_site(stderr):
 
 def routine_level(ctx, harness, stats):
     groups = []
-    ng = 30 if ctx.quick() else 400
+    ng = 30 if ctx.quick() else 250
     cdir = vlib.CORPUS / "C05"
     for p in sorted(cdir.glob("*.script")) if cdir.exists() else []:
         groups.append(("corpus:" + p.name, [l for l in p.read_text().splitlines() if l and not l.startswith("#")]))
@@ -417,13 +417,16 @@ def walk_level(ctx, tools, stats):
         stats["walk_images"] += 1
         # rdsquashfs -d : fill_dir
         r = run_tool(ctx, [str(tools["rdsquashfs"]), "-d", str(p)], env, 20)
-        cnt = len([l for l in r["out"].splitlines() if l.split(" ")[0] in ("dir", "file", "slink", "nod", "pipe", "sock")])
+        # one line per tree node; the root directory itself ("dir / ...", printed by newer describe.c) is not a node below the root
+        cnt = len([l for l in r["out"].splitlines() if l.split(" ")[0] in ("dir", "file", "slink", "nod", "pipe", "sock")
+                   and l.split(" ")[1:2] not in (["/"], ['"/"'])])
         impl = ("ok %d" % cnt) if r["rc"] == 0 else ("err LINK_LOOP" if "link loop" in r["err"] else "err rc=%s %s" % (r["rc"], r["err"][-80:]))
         graph = {i: e for i, e in enumerate(edges)}
         big = (F.tree_size(graph, 0) or 0) > 200000
         if impl != mm.group(1) and not big:
             ctx.violation("corr:walk:fill_dir:" + vlib.sha(spec)[:8], "rdsquashfs -d on a forged directory graph: impl=%s model=%s" % (impl, mm.group(1)),
-                          {"kind": "image", "image_b64": base64.b64encode(img).decode(), "cmd": ["rdsquashfs", "-d"], "model": ml},
+                          {"kind": "image", "image_b64": base64.b64encode(img).decode(), "cmd": ["rdsquashfs", "-d"], "model": ml,
+                           "impl_stdout": r["out"][:2000], "impl_stderr": r["err"][:1000], "graph": [edges, inums]},
                           found_input=(r["rc"] in (98, 99, "timeout") or (isinstance(r["rc"], int) and r["rc"] < 0)))
         # sqfs2tar : dir_rec
         cyclic = F.has_cycle(graph, 0)
@@ -453,6 +456,12 @@ def walk_level(ctx, tools, stats):
 
 
 # ====================================================================== C. tool level
+def clip(b):
+    """head and tail of a sanitizer report (the stack is at the head, the summary at the tail)"""
+    t = b.decode(errors="replace") if isinstance(b, (bytes, bytearray)) else (b or "")
+    return t if len(t) <= 9000 else t[:6000] + "\n[...]\n" + t[-3000:]
+
+
 def run_tool(ctx, cmd, env, timeout, tar_count=False, cwd=None):
     t0 = time.time()
     try:
@@ -470,12 +479,12 @@ def run_tool(ctx, cmd, env, timeout, tar_count=False, cwd=None):
             except subprocess.TimeoutExpired:
                 p.kill(); t.kill(); p.wait(); t.wait()
                 rc = "timeout"
-            err = p.stderr.read().decode(errors="replace")
-            return {"rc": rc, "out": "", "err": err[-4000:], "count": cnt, "t": time.time() - t0}
+            err = clip(p.stderr.read())
+            return {"rc": rc, "out": "", "err": err, "count": cnt, "t": time.time() - t0}
         r = subprocess.run(cmd, stdout=subprocess.PIPE, stderr=subprocess.PIPE, env=env, timeout=timeout, cwd=cwd)
-        return {"rc": r.returncode, "out": r.stdout[-200000:].decode(errors="replace"), "err": r.stderr[-4000:].decode(errors="replace"), "t": time.time() - t0}
+        return {"rc": r.returncode, "out": r.stdout[-200000:].decode(errors="replace"), "err": clip(r.stderr), "t": time.time() - t0}
     except subprocess.TimeoutExpired as e:
-        return {"rc": "timeout", "out": "", "err": (e.stderr or b"")[-2000:].decode(errors="replace") if e.stderr else "", "t": time.time() - t0}
+        return {"rc": "timeout", "out": "", "err": clip(e.stderr or b""), "t": time.time() - t0}
 
 
 BOUNDARY = [0, 1, 2, 3, 7, 8, 0x7F, 0x80, 0xFF, 0x100, 0xFFF, 0x1000, 0x1001, 0x1FFF, 0x2000, 0x2001, 0x7FFF, 0x8000, 0xFFFF, 0x10000,
@@ -637,8 +646,8 @@ def tool_level(ctx, tools, api, stats):
     for k, img in enumerate(reals):
         images.append(("real%d:valid" % k, img, []))
     nvalid = len(images)
-    n_field = 140 if quick else 5000
-    n_byte = 60 if quick else 2500
+    n_field = 140 if quick else 3000
+    n_byte = 60 if quick else 1500
     for k in range(n_field):
         lab, img, fields = bases[k % len(bases)]
         m, desc = mutate_field(rng, img, fields, 1 if rng.random() < 0.8 else rng.randint(2, 3))
